@@ -243,12 +243,12 @@ def quoteStr (s : Text) : Text := '"' :: (escStr s ++ ['"'])
 
 mutual
   def dumps : Json → Text
-    | .null => "null".toList
-    | .bool true => "true".toList
-    | .bool false => "false".toList
+    | .null => ['n', 'u', 'l', 'l']
+    | .bool true => ['t', 'r', 'u', 'e']
+    | .bool false => ['f', 'a', 'l', 's', 'e']
     | .int i => intText i
-    | .fzero false => "0.0".toList
-    | .fzero true => "-0.0".toList
+    | .fzero false => ['0', '.', '0']
+    | .fzero true => ['-', '0', '.', '0']
     | .float c r => c :: r
     | .str s => quoteStr s
     | .arr xs => '[' :: (dumpsList xs ++ [']'])
@@ -268,7 +268,7 @@ end
 /-- `py_json_unwrap(value)`: `"[null,some_json]"` → `"some_json"`, anything else → NULL -/
 def pyJsonUnwrap (value : Option Text) : Option Text :=
   match value with
-  | some t => if "[null,".toList.isPrefixOf t then some ((t.drop 6).dropLast) else none
+  | some t => if ['[', 'n', 'u', 'l', 'l', ','].isPrefixOf t then some ((t.drop 6).dropLast) else none
   | none => none
 
 def nonExistentKey : Text := "__non_existent_json_attr_name__".toList
@@ -300,8 +300,8 @@ def jsonQueryFallback (cte : Bool) (doc : Json) (keys : Option (List Key)) : Exc
 def jsonNonzero (lits : List Text) (t : Text) : Bool := !(lits.contains t)
 
 /-- the six literals of `JSON_NONZERO` in the tree as snapshotted; `Gen.JsonLits.sqliteNonzeroLits` is the list read from the current source -/
-def baseLits : List Text := ["null".toList, "false".toList, "0".toList, "\"\"".toList, "[]".toList, "{}".toList]
-def floatZeroLits : List Text := ["0.0".toList, "-0.0".toList]
+def baseLits : List Text := [['n', 'u', 'l', 'l'], ['f', 'a', 'l', 's', 'e'], ['0'], ['"', '"'], ['[', ']'], ['{', '}']]
+def floatZeroLits : List Text := [['0', '.', '0'], ['-', '0', '.', '0']]
 
 /-- Python `bool(v)` -/
 def pyTruthy : Json → Bool
